@@ -44,6 +44,23 @@ def check_search_loops(ctx, prog, tag=""):
                 if cd.kind == "call" and cd.call.name.endswith("::is_empty") and not truth and cd.call.args and (
                         {o.key() for o in flow.origins(f, cd.call.args[0])} & keys):
                     guard = "!is_empty()"
+                if cd.kind == "bin" and cd.rv["op"] in ("Eq", "Ne", "Gt", "Lt", "Ge", "Le"):
+                    for x, y in ((cd.rv["a"], cd.rv["b"]), (cd.rv["b"], cd.rv["a"])):
+                        if "c" in x or "c" not in y:
+                            continue
+                        k0 = const_int(y)
+                        is_len = any(o.kind == "call" and o.call.name.endswith("::len") and o.call.args and (
+                            {q.key() for q in flow.origins(f, o.call.args[0])} & keys) for o in flow.origins(f, x))
+                        if not is_len or k0 is None:
+                            continue
+                        op = cd.rv["op"]
+                        swapped = x is cd.rv["b"]
+                        if swapped:
+                            op = {"Gt": "Lt", "Lt": "Gt", "Ge": "Le", "Le": "Ge"}.get(op, op)
+                        if (op == "Eq" and k0 == 0 and not truth) or (op == "Ne" and k0 == 0 and truth) or \
+                                (op == "Gt" and k0 >= 0 and truth) or (op == "Ge" and k0 >= 1 and truth) or \
+                                (op == "Lt" and k0 <= 1 and not truth) or (op == "Le" and k0 <= 0 and not truth):
+                            guard = "len() compared with %d" % k0
             ctx.ob("C01.P15.search-loop-advances", "%s%s|%s" % (tag, f.path, c.name.split("::")[-1]), const_ok or guard is not None,
                    "the loop re-slices its haystack after every match of a needle that may be empty: an empty needle matches at "
                    "offset 0 forever (the loop never ends; its counter overflows after 2^31 rounds)", f.where(c.bb))
